@@ -534,3 +534,92 @@ Proof.
   rewrite (run_mono_rec A orc f n MNeed _ r s' Er H fuel fuel); [exact H|lia|lia].
 Qed.
 End TR.
+
+(** the expected-token list, exactly: on validated tables the listed terminals are precisely those the
+    parser itself would consume next from the configuration in which the error is reported (the
+    reductions they trigger end in their shift) -- the list is complete for the automaton *)
+From LV Require Import LR.Viable.
+Section Expected.
+Variable A : tables.
+Variable C : cert.
+Hypothesis Hshape : shape A C = true.
+Hypothesis Hexact : exact A C = true.
+Hypothesis Hterm : terminates A C = true.
+
+Notation SLinked := (SLinked A C).
+Notation Shiftable := (Shiftable A).
+
+Lemma accepts_false_not_shiftable : forall f l a, SLinked l -> la_ok A a -> accepts A f l a = AFalse -> ~ Shiftable a l.
+Proof.
+  induction f as [|f IH]; intros l a HL Ha H Hsh; cbn [accepts] in H; [discriminate|].
+  destruct l as [|top r] eqn:El; [destruct HL|]. rewrite <- El in HL, Hsh.
+  assert (Htop : top < n_states A) by (pose proof (slinked_hd_lt A C Hshape l HL) as H'; rewrite El in H'; exact H').
+  assert (Hsome : exists z, (match a with None => eof_at A top | Some t => act_at A top t end) = Some z).
+  { destruct a as [t|]; [apply (act_some A C Hshape); auto|apply (eof_some A); auto]. }
+  destruct Hsome as [z Hz]. rewrite Hz in H.
+  destruct (z =? 0)%Z eqn:H0.
+  - apply Z.eqb_eq in H0. subst z.
+    apply (err_not_shiftable A a l); [|exact Hsh]. rewrite El. cbn [hd]. unfold tact. rewrite Hz. reflexivity.
+  - destruct (as_reduce z) as [p|] eqn:Hr; [|discriminate].
+    assert (Ht : tact A top a = AReduce p).
+    { unfold tact. rewrite Hz. apply decode_reduce_raw; auto. }
+    destruct (RJ A C Hshape Hexact _ _ _ Ha Ht) as [Hc Hp].
+    destruct (sim_of_prod A C Hshape p Hp) as [Hsim [k Hk]]. rewrite Hk in H.
+    destruct (nth_error (sim_nt A) p) as [[nt|]|]; [|discriminate|destruct Hsim].
+    destruct Hsim as (Hne & -> & Hk'). rewrite Hk in Hk'. inversion Hk'; subst k.
+    assert (Hc' : core C (hd 0 l) p (length (rhs A p))) by (rewrite El; exact Hc).
+    destruct (walk_back_s A C Hshape Hexact l p _ HL Hc') as [Hlen Hall].
+    rewrite <- El in H.
+    replace (length l <=? length (rhs A p)) with false in H by (symmetry; apply Nat.leb_gt; exact Hlen).
+    assert (Hsr : sred A a l = Some (goto_at A (hd 0 (skipn (length (rhs A p)) l)) (lhs A p) :: skipn (length (rhs A p)) l)).
+    { unfold sred. rewrite El. cbn [hd]. rewrite Ht. rewrite <- El.
+      replace (p =? start_prod A) with false by (symmetry; apply Nat.eqb_neq; exact Hne).
+      cbv zeta. replace (length (rhs A p) <? length l) with true by (symmetry; apply Nat.ltb_lt; exact Hlen). reflexivity. }
+    apply (IH _ a) in H; [|  |exact Ha].
+    + apply H. exact (shiftable_step A a _ _ Hsr Hsh).
+    + specialize (Hall _ (le_n _)). rewrite Nat.sub_diag in Hall.
+      pose proof (slinked_skipn A C _ _ HL Hlen) as HL'.
+      destruct (skipn (length (rhs A p)) l) as [|b r'] eqn:Es; [destruct HL'|].
+      cbn [hd] in *. cbn [NoPanic.SLinked]. split; [|exact HL'].
+      destruct (EXC A C Hshape Hexact _ _ Hall) as [[_ Hq]|(p' & d' & Hc2 & Hn)]; [congruence|].
+      exists (Nt (lhs A p)). eapply e_goto; eauto.
+Qed.
+
+Lemma expected_go_complete f l : forall n i L x, expected_go A f l i n = EList L -> i <= x < i + n ->
+  accepts A f l (Some x) = ATrue -> In x L.
+Proof.
+  induction n as [|n IH]; intros i L x H Hx Hacc; cbn [expected_go] in H; [lia|].
+  destruct (Nat.eq_dec x i) as [->|Hne].
+  - rewrite Hacc in H. destruct (expected_go A f l (S i) n); try discriminate. inversion H; subst. left. reflexivity.
+  - destruct (accepts A f l (Some i)); try discriminate.
+    + destruct (expected_go A f l (S i) n) as [L'| |] eqn:E; try discriminate. inversion H; subst.
+      right. apply (IH (S i) L' x E); [lia|exact Hacc].
+    + apply (IH (S i) L x H); [lia|exact Hacc].
+Qed.
+
+Lemma expected_go_total f l : forall n i L x, expected_go A f l i n = EList L -> i <= x < i + n ->
+  accepts A f l (Some x) = ATrue \/ accepts A f l (Some x) = AFalse.
+Proof.
+  induction n as [|n IH]; intros i L x H Hx; cbn [expected_go] in H; [lia|].
+  destruct (Nat.eq_dec x i) as [->|Hne].
+  - destruct (accepts A f l (Some i)); try discriminate; auto.
+  - destruct (accepts A f l (Some i)); try discriminate.
+    + destruct (expected_go A f l (S i) n) as [L'| |] eqn:E; try discriminate.
+      apply (IH (S i) L' x E). lia.
+    + apply (IH (S i) L x H). lia.
+Qed.
+
+Theorem expected_exactly_the_shiftable_terminals f l L : SLinked l ->
+  expected_go A f l 0 (tn_names A) = EList L ->
+  forall x, x < tn_names A -> (In x L <-> Shiftable (Some x) l).
+Proof.
+  intros HL HE x Hx.
+  assert (Hla : la_ok A (Some x)) by (cbn; pose proof (names_le A C Hshape); lia).
+  split.
+  - intros Hin. destruct (expected_go_in A f l _ _ _ _ HE Hin) as [Hacc _].
+    exact (accepts_true_shiftable A C Hshape Hexact f l (Some x) HL Hla Hacc).
+  - intros Hsh. apply (expected_go_complete f l _ 0 L x HE); [lia|].
+    destruct (expected_go_total f l _ 0 L x HE ltac:(lia)) as [H|H]; [exact H|].
+    exfalso. exact (accepts_false_not_shiftable f l (Some x) HL Hla H Hsh).
+Qed.
+End Expected.
